@@ -4,8 +4,12 @@ Per input b: the call returns or raises an ordinary Exception (not BaseException
 MemoryError); the number of deserialize_value activations is <= len(b)/2 + 1 (each
 consumes a 2-byte type id: the logical 'never iterates beyond the input' bound);
 tracemalloc peak - start <= 32 KiB + 512 * len(b); a returned value contains only
-supported builtins and instances of registered classes.  A 5 s wall-clock watchdog
-per input is inconclusive (with a faulthandler dump), never a verdict.
+supported builtins and instances of registered classes.  'Never hangs' is decided on a
+*logical* step count: sys.monitoring LINE events on the code objects of the decoder
+modules (serializable, connection, crypto) are counted per input and a budget of
+20 000 + 60 per input byte line-steps raises inside the running code (a decoder that
+loops without consuming input exceeds it; the worst input on the unchanged tree uses a
+few percent).  The shard's wall-clock watchdog stays inconclusive, never a verdict.
 
 Inputs: random bytes; every truncation and many bit flips of a corpus of valid
 encodings and of real client-hello / server-hello / challenge messages; every
@@ -120,6 +124,76 @@ def corpus(r, tag):
     return out, classes, enums, root
 
 
+class StepBudgetExceeded(BaseException):
+    """raised from the LINE-event callback: the decoder executed far more lines than the input can justify"""
+
+
+class StepMeter(object):
+    """sys.monitoring LINE events on the code objects of the decoder modules: a *logical* step count per input.
+    'Never hangs' is decided on steps, not on wall-clock: exceeding the budget raises inside the running code."""
+    TOOL = 4
+
+    def __init__(self):
+        import sys
+        import types
+        import mpgameserver.serializable as S
+        import mpgameserver.connection as C
+        import mpgameserver.crypto as K
+        import mpgameserver.http_server as H
+        self.mon = sys.monitoring
+        self.steps = 0
+        self.budget = 1 << 60
+        self.codes = []
+        seen = set()
+
+        def add_code(co):
+            if id(co) in seen:
+                return
+            seen.add(id(co))
+            self.codes.append(co)
+            for const in co.co_consts:
+                if isinstance(const, types.CodeType):
+                    add_code(const)
+
+        def walk(obj, depth=0):
+            if isinstance(obj, types.FunctionType):
+                add_code(obj.__code__)
+            elif isinstance(obj, (staticmethod, classmethod)):
+                walk(obj.__func__)
+            elif isinstance(obj, type) and depth < 2 and getattr(obj, "__module__", "").startswith("mpgameserver"):
+                for v in list(vars(obj).values()):
+                    walk(v, depth + 1)
+        for mod in (S, C, K):
+            for v in list(vars(mod).values()):
+                if getattr(v, "__module__", None) == mod.__name__ or isinstance(v, types.FunctionType):
+                    walk(v)
+        walk(H.Request)
+        self.mon.use_tool_id(self.TOOL, "verif-c14")
+        meter = self
+
+        def on_line(code, line):
+            meter.steps += 1
+            if meter.steps > meter.budget:
+                meter.budget = 1 << 60          # raise once
+                raise StepBudgetExceeded(meter.steps)
+        self.mon.register_callback(self.TOOL, self.mon.events.LINE, on_line)
+        for co in self.codes:
+            self.mon.set_local_events(self.TOOL, co, self.mon.events.LINE)
+
+    def undo(self):
+        for co in self.codes:
+            try:
+                self.mon.set_local_events(self.TOOL, co, 0)
+            except Exception:
+                pass
+        self.mon.register_callback(self.TOOL, self.mon.events.LINE, None)
+        self.mon.free_tool_id(self.TOOL)
+
+
+STEP_BASE = 20000
+STEP_PER_BYTE = 60
+
+
 class Meter(object):
     """activation counter on deserialize_value (module global, so recursion goes through it)"""
 
@@ -164,8 +238,9 @@ def run_shard(cfg):
     registry_classes = set(S.SerializableType.registry.values())
     type_ids = sorted(S.SerializableType.registry) + sorted(S.deserialize_types)
     meter = Meter()
+    steps = StepMeter()
     ctxt = ServerContext(EventHandler(), root)
-    worst = {"ratio": 0.0, "act": 0.0}
+    worst = {"ratio": 0.0, "act": 0.0, "steps": 0.0}
 
     def entry_points(b):
         yield "loadb", lambda: S.Serializable.loadb(b)
@@ -197,6 +272,8 @@ def run_shard(cfg):
             def call():
                 return Request(("1.2.3.4", 5), "POST", "/m", {}, "", {}, BytesIO(b)).message()
         meter.n = 0
+        steps.steps = 0
+        steps.budget = STEP_BASE + STEP_PER_BYTE * len(b)
         tracemalloc.clear_traces()
         base = tracemalloc.get_traced_memory()[0]
         tracemalloc.reset_peak()
@@ -211,10 +288,18 @@ def run_shard(cfg):
         except Exception as e:
             exc = e
             c.inc("raised_ordinary_exception")
+        except StepBudgetExceeded as e:
+            exc = e
+            viol("hangs-or-iterates-beyond-input", "%s input of %d bytes (%s): more than %d decoder line-steps executed (budget %d + %d per byte) - "
+                 "the decoder loops without being bounded by its input" % (label, len(b), via, steps.steps, STEP_BASE, STEP_PER_BYTE),
+                 {"input": b[:64].hex(), "label": label, "via": via, "length": len(b)})
         except BaseException as e:
             exc = e
             viol("base-exception", "%s input of %d bytes raised %r (not an ordinary Exception)" % (label, len(b), e), {"input": b[:64].hex(), "label": label})
+        steps.budget = 1 << 60
         dt = time.perf_counter() - t0
+        worst["steps"] = max(worst["steps"], steps.steps / float(STEP_BASE + STEP_PER_BYTE * len(b)))
+        c.inc("decoder_line_steps", steps.steps)
         peak = tracemalloc.get_traced_memory()[1] - base
         del exc
         if dt > 5.0:
@@ -308,12 +393,15 @@ def run_shard(cfg):
             c.inc("via_" + via)
         if len(samples) < 3:
             samples.append({"attack_examples": [(l, b[:24].hex()) for l, b in attacks[::37]][:8],
-                            "worst_alloc_bytes_per_input_byte": round(worst["ratio"], 1), "worst_activation_ratio": round(worst["act"], 3)})
+                            "worst_alloc_bytes_per_input_byte": round(worst["ratio"], 1), "worst_activation_ratio": round(worst["act"], 3),
+                            "worst_step_budget_fraction": round(worst["steps"], 3)})
     finally:
         tracemalloc.stop()
         meter.undo()
+        steps.undo()
     return {"evaluations": c.get("inputs", 0), "distinct": sorted(distinct), "counters": dict(c), "violations": violations, "samples": samples,
-            "observations": ["worst peak allocation per input byte: %.1f" % worst["ratio"]]}
+            "observations": ["worst peak allocation per input byte: %.1f" % worst["ratio"],
+                             "worst fraction of the line-step budget used by one input: %.3f" % worst["steps"]]}
 
 
 def finish(tier, seed, results):
@@ -321,7 +409,7 @@ def finish(tier, seed, results):
     inconclusive = []
     need(m["counters"], ["inputs", "returned", "raised_ordinary_exception", "control_valid_decoded", "inputs_declared-length", "inputs_deep-nesting-seq",
                          "inputs_truncation", "inputs_bitflip", "inputs_typeid", "inputs_random", "via_client-hello-handler", "via_challenge-handler",
-                         "via_server-hello-handler", "via_request-message", "decoded_values_inspected"], inconclusive)
+                         "via_server-hello-handler", "via_request-message", "decoded_values_inspected", "decoder_line_steps"], inconclusive)
     if m["counters"].get("watchdog_inconclusive"):
         inconclusive.append("%d inputs exceeded the 5 s wall-clock watchdog" % m["counters"]["watchdog_inconclusive"])
     if m["counters"].get("control_valid_failed"):
@@ -340,7 +428,7 @@ def finish(tier, seed, results):
         "observations": m["observations"],
     }
     return {"coverage": cov, "inconclusive": inconclusive,
-            "assumptions": ["bounds: activations <= len/2+1; peak allocation <= 32 KiB + 512 bytes per input byte (sized on the unchanged tree: "
+            "assumptions": ["line-step budget 20000 + 60/byte (LINE events of the decoder modules' code objects)", "bounds: activations <= len/2+1; peak allocation <= 32 KiB + 512 bytes per input byte (sized on the unchanged tree: "
                             "the traceback of the RecursionError for deep nesting costs ~200 bytes per input byte)",
                             "RecursionError is an ordinary exception (caught by the server loop) and is allowed",
                             "the handshake handlers get 64 KiB extra for the key objects of the connection they belong to"]}
